@@ -48,6 +48,11 @@ ASSUMPTIONS = [
     "behaviour is stated by separate theorems (na_is_removed, literal splice, exact n/a, bounded splice_tree)",
     "tables are text cells; DataFrame index labels are not part of the model (a non-default index is exercised on "
     "the implementation and checked against the statement only); file loading (read_csv, '' -> n/a) is trusted pandas behaviour",
+    "cells that are a blank-padded spelling of n/a (' n/a', 'n/a ') are outside the statement oracle's domain (ambiguous: "
+    "filled into templates as text, but a part that ends up as exactly 'n/a' is dropped by the join); such cases are "
+    "compared with the model only",
+    "column NAMES (onset, duration, sample, response_time, Levels, Description, ...) are an input dimension of the "
+    "generators; proved: C06_listed_columns for every name, corollary C06_timing_columns_listed",
     "property oracle domain: sidecars that the HED sidecar rules accept structurally (no nested/self references, "
     "references name non-ignored table columns and stand as whole tags, well-delimited templates); anything else is "
     "compared with the model only",
@@ -335,6 +340,12 @@ def oracle_domain(case, loaded_cols):
             for t in ts:
                 if REF_RE.search(t):
                     return "reference-in-absent-column"
+    for row in case["_loaded_rows"]:
+        for x in row:
+            if x != NA and x.strip(" ") == NA:
+                # a blank-padded spelling of n/a is neither clearly a value nor clearly missing (the code fills it into
+                # a template, but a part that ends up as exactly "n/a" is dropped): compared with the model only
+                return "blank-padded-n/a-cell"
     for ci, c in enumerate(loaded_cols):
         if c == "HED" or kinds.get(c) == "value":
             for row in case["_loaded_rows"]:
@@ -593,6 +604,38 @@ SPECIAL_TAGS = ["Label/a\\b", "ID/$1", "Label/100%", "Label/%s", "Label/x\\1", "
 def odd_cell(rng):
     return rng.choice(SPECIAL_TEXT) if rng.random() < 0.5 else rng.choice(NEAR_NA)
 NAMES = ["cat", "val", "resp", "a", "B", "z_1", "x-y", "trial_type", "c2", "Zed"]
+# column NAMES as an input dimension: BIDS timing / reserved names and names equal to sidecar keywords may be categorical
+# or value columns like any other (only a table column named HED is special)
+RESERVED_NAMES = ["onset", "duration", "sample", "response_time", "stim_file", "value", "Levels", "Description", "Units",
+                  "LongName", "hed", "Hed"]
+
+
+def pick_names(rng, k, extra=()):
+    names = rng.sample(NAMES + list(extra), k)
+    if rng.random() < 0.4:
+        r_ = rng.choice(RESERVED_NAMES)
+        if r_ not in names:
+            names[rng.randrange(len(names))] = r_
+    return names
+
+
+def rename_case(case, mapping):
+    """the same case with columns renamed (sidecar keys, table columns and {references})"""
+    def rn_text(t):
+        for a, b in mapping.items():
+            t = t.replace("{" + a + "}", "{" + b + "}")
+        return t
+
+    def rn_entry(e):
+        if isinstance(e, dict) and isinstance(e.get("HED"), dict):
+            return dict(e, HED={k: rn_text(v) if isinstance(v, str) else v for k, v in e["HED"].items()})
+        if isinstance(e, dict) and isinstance(e.get("HED"), str):
+            return dict(e, HED=rn_text(e["HED"]))
+        return e
+    out = dict(case)
+    out["sidecar"] = {mapping.get(k, k): rn_entry(e) for k, e in case["sidecar"].items()}
+    out["columns"] = [mapping.get(c, c) for c in case["columns"]]
+    return out
 
 
 def gen_tree_text(rng, leaves_extra, depth=2):
@@ -617,7 +660,7 @@ def gen_tree_text(rng, leaves_extra, depth=2):
 
 def gen_valid(rng, nmax_rows=4, digits=False):
     """a structurally valid sidecar and a table over its categories plus n/a, empty and unknown keys"""
-    names = rng.sample(NAMES + (["1", "12", "007"] if digits else []), rng.randint(1, 4))
+    names = pick_names(rng, rng.randint(1, 4), ["1", "12", "007"] if digits else [])
     if digits and not any(x.isdigit() for x in names):
         names[0] = rng.choice(["1", "12", "007"])
     has_hed = rng.random() < 0.5
@@ -656,7 +699,7 @@ def gen_valid(rng, nmax_rows=4, digits=False):
     cols = [nm for nm in names if rng.random() < 0.9 or nm in refd or nm == host]
     if has_hed:
         cols.append("HED")
-    if rng.random() < 0.4:
+    if rng.random() < 0.4 and "onset" not in cols:
         cols.append("onset")
     if rng.random() < 0.3:
         cols.append("other")
@@ -720,7 +763,12 @@ def gen_systematic():
                 for b in cells["val"]:
                     for c in cells["HED"]:
                         rows.append([b, c, a] + (["h"] if host == "host" else []))
-            out.append({"sidecar": sc, "columns": cols, "rows": rows, "mode": "df", "stream": "systematic"})
+            case = {"sidecar": sc, "columns": cols, "rows": rows, "mode": "df", "stream": "systematic"}
+            if len(out) % 3 == 1:      # the same cross product under reserved / timing column names
+                case = rename_case(case, {"val": "duration", "cat": "onset", "host": "Levels"})
+            elif len(out) % 3 == 2:
+                case = rename_case(case, {"val": "response_time", "cat": "sample", "host": "Description"})
+            out.append(case)
     return out
 
 
@@ -788,6 +836,12 @@ CORPUS = [
     # regression for repaired defect C06-F8 (fix commit d53ebab): a blanks-only text of a REFERENCED column is removed
     {"sidecar": {"val": {"HED": "{HED}, Square, Label/#"}, "cat": {"HED": {"go": "({val}), Blue"}}},
      "columns": ["val", "HED", "cat"], "rows": [["x", " ", "zzz"], ["y", "Red ", "zzz"], ["z", "  ", "zzz"]], "mode": "df"},
+    # column names: a sidecar that annotates the timing columns themselves, a referenced timing column, keyword names
+    {"sidecar": {"duration": {"HED": "Duration/# s"}, "onset": {"HED": "Delay/# ms"}, "Levels": {"HED": {"go": "Red"}},
+                 "trial_type": {"HED": {"go": "(Sensory-event, {duration})", "stop": "Blue"}},
+                 "Description": {"HED": "Label/#"}},
+     "columns": ["onset", "duration", "trial_type", "Levels", "Description"],
+     "rows": [["1.5", "0.5", "go", "go", "x"], ["2", NA, "go", "zzz", NA], [NA, "3", "stop", "go", "y"]], "mode": "file"},
     # every '#' of a value template is the cell text
     {"sidecar": {"val": {"HED": "(Label/#, ID/#), Red"}}, "columns": ["val"], "rows": [["7"], [NA]], "mode": "df"},
 ]
@@ -838,12 +892,12 @@ def gen_sidecar(rng, names, has_hed):
 
 def gen_history(rng):
     """one table, 2-3 sidecars over the same columns, and a sequence of assemble / reset_column_mapper / set_cell"""
-    names = rng.sample(NAMES, rng.randint(2, 4))
+    names = pick_names(rng, rng.randint(2, 4))
     has_hed = rng.random() < 0.5
     sidecars = [gen_sidecar(rng, names, has_hed) for _ in range(rng.randint(2, 3))]
     if rng.random() < 0.15:
         sidecars.append(None)
-    cols = list(names) + (["HED"] if has_hed else []) + (["onset"] if rng.random() < 0.3 else [])
+    cols = list(names) + (["HED"] if has_hed else []) + (["onset"] if rng.random() < 0.3 and "onset" not in names else [])
     rng.shuffle(cols)
     pool = ["go", "stop", "left", NA, "", "zzz", "3", "abc", "a", "n/", "N/A", "x\\1y", "\\g<0>", "100%"]
     hedpool = ["Red", "(Blue, Green)", NA, "", "n", "Label/a\\b"] + ([" ", "Red "] if BLANK_DIM else [])
